@@ -96,13 +96,14 @@ pub fn run() {
 			}
 			local.evaluations += 1;
 			local.transitions += 2;
-			local.bulk += 1;
 			let mut sorted = ids.clone();
 			sorted.sort();
 			sorted.dedup();
 			let repeats = sorted.len() < ids.len();
 			if repeats {
 				local.nontrivial += 1;
+				// distinct by construction of the enumeration; only the non-trivial ones are counted as such
+				local.bulk += 1;
 			}
 			local.states.insert(fnv_mix(len as u64, sorted.len() as u64));
 			local.outcomes.insert(fnv_mix(len as u64, (ids.len() - sorted.len()) as u64));
